@@ -74,13 +74,14 @@ JudgeOpts(rec) ==
   Chk(SameSeq(Var(rec, "no-fx").rows, SelectSeq(base, LAMBDA o : o.sec # "USD.FX")), "option", "--no-fx is not the output without the USD.FX rows",
   Chk(SameSeq(Var(rec, "security").rows, SelectSeq(base, LAMBDA o : o.sec = "FOO")), "option", "--security FOO is not the output restricted to FOO",
   Chk(SameSeq(Var(rec, "account").rows, SelectSeq(base, LAMBDA o : o.margin)), "option", "--account Margin is not the output restricted to that account",
+  Chk(SameSeq(Var(rec, "account-anchored").rows, SelectSeq(base, LAMBDA o : o.margin)), "option", "--account '^Margin 111' (the account's type and number from their start) is not the output restricted to that account",
   Chk(LET ns == Var(rec, "no-sort").rows IN
         Len(ns) = Len(base) /\ \A n \in DOMAIN base : \E m \in DOMAIN ns : SameOut(base[n], ns[m]), "option", "--no-sort changes the set of rows",
   Chk(LET ur == Var(rec, "usd-rate").rows IN
         Len(ur) = Len(base) /\ \A n \in DOMAIN base :
            IF base[n].cur = "USD" THEN SameOut([base[n] EXCEPT !.hasRate = TRUE, !.rate = ur[n].rate], ur[n]) /\ REq(D(ur[n].rate), usdRate)
            ELSE SameOut(base[n], ur[n]), "option", "--usd-exchange-rate does not set exactly the USD rows' rate",
-  OkV)))))))
+  OkV))))))))
 
 Init == l = 1 /\ tally = [ok |-> 0, fail |-> 0, ambig |-> 0, skip |-> 0, steps |-> 0]
 Next ==
